@@ -758,7 +758,33 @@ var mutators = map[string]func(d *docInfo, a, b int) bool{
 		return true
 	},
 	"subscription-two-root-fields": func(d *docInfo, a, b int) bool {
-		d.doc = &ast.QueryDocument{Operations: ast.OperationList{{Operation: ast.Subscription, SelectionSet: ast.SelectionSet{&ast.Field{Name: "subA", Alias: "subA"}, &ast.Field{Name: "subB", Alias: "subB"}}}}}
+		// two response names at the root of a subscription, in the ways a client can write them:
+		// two fields, one field under two aliases (with equal or different arguments), the
+		// second one inside an inline fragment or a named fragment on the root type
+		first := func(n string) ast.ArgumentList {
+			return ast.ArgumentList{{Name: "first", Value: &ast.Value{Raw: n, Kind: ast.IntValue}}}
+		}
+		id := ast.SelectionSet{&ast.Field{Name: "id", Alias: "id"}}
+		var set ast.SelectionSet
+		var frags ast.FragmentDefinitionList
+		switch a % 7 {
+		case 0:
+			set = ast.SelectionSet{&ast.Field{Name: "subA", Alias: "subA"}, &ast.Field{Name: "subB", Alias: "subB"}}
+		case 1:
+			set = ast.SelectionSet{&ast.Field{Name: "subA", Alias: "x"}, &ast.Field{Name: "subA", Alias: "y"}}
+		case 2:
+			set = ast.SelectionSet{&ast.Field{Name: "subB", Alias: "x", Arguments: first("1")}, &ast.Field{Name: "subB", Alias: "y", Arguments: first("2")}}
+		case 3:
+			set = ast.SelectionSet{&ast.Field{Name: "subB", Alias: "subB", Arguments: first("1")}, &ast.Field{Name: "subB", Alias: "y", Arguments: first("1")}}
+		case 4:
+			set = ast.SelectionSet{&ast.Field{Name: "subE", Alias: "x", SelectionSet: id}, &ast.Field{Name: "subE", Alias: "y", SelectionSet: id}}
+		case 5:
+			set = ast.SelectionSet{&ast.Field{Name: "subA", Alias: "subA"}, &ast.InlineFragment{TypeCondition: "Subscription", SelectionSet: ast.SelectionSet{&ast.Field{Name: "subA", Alias: "y"}}}}
+		default:
+			set = ast.SelectionSet{&ast.Field{Name: "subA", Alias: "subA"}, &ast.FragmentSpread{Name: "SF"}}
+			frags = ast.FragmentDefinitionList{{Name: "SF", TypeCondition: "Subscription", SelectionSet: ast.SelectionSet{&ast.Field{Name: "subA", Alias: "y"}}}}
+		}
+		d.doc = &ast.QueryDocument{Operations: ast.OperationList{{Operation: ast.Subscription, SelectionSet: set}}, Fragments: frags}
 		return true
 	},
 	"subscription-introspection-root-field": func(d *docInfo, a, b int) bool {
